@@ -245,10 +245,20 @@ C16ok(E, tags, q, d) ==
               IsSubseq(a, b) == IF a = <<>> THEN TRUE ELSE IF b = <<>> THEN FALSE ELSE IF Head(a) = Head(b) THEN IsSubseq(Tail(a), Tail(b)) ELSE IsSubseq(a, Tail(b))
           IN IsSubseq(dv, sv) /\ NoDup(dv)
 
+\* ---------------------------------------------------------------- C13 with a source that runs on its own thread
+\* tags: "conn-stop"    the last subscriber leaving stops the source: every emission attempt of the source thread later than
+\*                      `period` after the subscription ended sees is_subscribed() = false (emitcall events carry that reading)
+\*       "replay-once"  every subscriber of replay() gets each item once
+C13ok(E, tags, q, period) ==
+  /\ HasTag(tags, "conn-stop") =>
+       LET e == SubEnd(E, 1) IN
+       e # 0 => \A p \in Pos(E) : (E[p].ev = "emitcall" /\ p > e /\ E[p].clk >= E[e].clk + period) => E[p].issub = 0
+  /\ HasTag(tags, "replay-once") => \A u \in Subscribers(E) : NoDup(Delivered(E, u))
+
 Judge(E, tags, q) ==
   LET fin == q.fin IN
   [C09 |-> IF C09ok(E, tags, q) THEN "ok" ELSE "bad", C15 |-> IF C15ok(E, tags, q, q.period) THEN "ok" ELSE "bad",
-   C16 |-> IF C16ok(E, tags, q, q.period) THEN "ok" ELSE "bad", C18 |-> IF ~HasTag(tags, "tovec") \/ C18ok(E, q) THEN "ok" ELSE "bad",
+   C16 |-> IF C16ok(E, tags, q, q.period) THEN "ok" ELSE "bad", C13 |-> IF C13ok(E, tags, q, q.period) THEN "ok" ELSE "bad", C18 |-> IF ~HasTag(tags, "tovec") \/ C18ok(E, q) THEN "ok" ELSE "bad",
    C08 |-> IF ~(HasTag(tags, "queue") \/ HasTag(tags, "default_queue")) \/ C08ok(E, tags, q) THEN "ok" ELSE "bad",
    C19 |-> IF C19ok(E) THEN "ok" ELSE "bad", C05 |-> IF C05ok(E) THEN "ok" ELSE "bad",
    C11 |-> IF C11ok(E, tags, fin) THEN "ok" ELSE "bad", C12 |-> IF C12ok(E, tags, fin) THEN "ok" ELSE "bad",
